@@ -46,6 +46,8 @@ def required(tier):
         "mode.glr_ld": 30,
         "mode.ignore_case": 30,
         "mode.custom_recognition": 30,
+        "mode.consume_input_off": 30,
+        "events.stop_offered_next_to_tokens": 2000,
         "kind.custom": 30,
         "kind.kw": 30,
     }
@@ -259,12 +261,14 @@ def run(ctx):
         mon.uninstall()
 
 
-def build(text, mode, tdefs, custom, ignore_case, passthrough):
+def build(text, mode, tdefs, custom, ignore_case, passthrough, prefix_mode=False):
     recs = {n: custom_recognizer(tdefs[n], ignore_case, style=(sum(map(ord, n)) + len(text)) % 3) for n in custom} or None
     pg = pgx.grammar(text, recognizers=recs, ignore_case=ignore_case)
     kw = {}
     if passthrough:
         kw["custom_token_recognition"] = lambda head, get_tokens: get_tokens()
+    if prefix_mode:
+        kw["consume_input"] = False
     if mode == "lr":
         return pg, pgx.lr(pg, **kw)
     if mode == "glr":
@@ -278,6 +282,10 @@ def one_grammar(ctx, mon, gi):
     text = make_grammar(ctx, names, tdefs, custom, keyword)
     ignore_case = rng.random() < 0.15
     passthrough = rng.random() < 0.15
+    # consume_input=False: the end-of-input pseudo token is offered next to real tokens at every
+    # position; it must not change which real tokens are found (whether STOP itself survives
+    # lexical disambiguation is C17's subject, KF-C17-1)
+    prefix_mode = rng.random() < 0.2
     maxlen = 4 if ctx.tier == "quick" else 5
     alphabet = "abc" if not ignore_case else "abAB"
     if keyword:
@@ -295,9 +303,10 @@ def one_grammar(ctx, mon, gi):
             "mode": mode,
             "ignore_case": ignore_case,
             "passthrough": passthrough,
+            "prefix_mode": prefix_mode,
         }
         try:
-            pg, parser = build(text, mode, tdefs, custom, ignore_case, passthrough)
+            pg, parser = build(text, mode, tdefs, custom, ignore_case, passthrough, prefix_mode)
         except Exception as e:  # noqa: BLE001
             ctx.count("construction_failed:" + type(e).__name__)
             continue
@@ -306,6 +315,8 @@ def one_grammar(ctx, mon, gi):
             ctx.count("mode.ignore_case")
         if passthrough:
             ctx.count("mode.custom_recognition")
+        if prefix_mode:
+            ctx.count("mode.consume_input_off")
         for d in tdefs.values():
             ctx.count("kind." + d.kind)
         if custom:
@@ -333,7 +344,12 @@ def check_input(ctx, mon, parser, case, tdefs, custom, w):
         expected = [t.name for t in state.actions if t is not STOP]
         want, reason, explicit, nmatch = ref_scan(expected, tdefs, custom, w, pos, ld, case["ignore_case"], STOP in state.actions)
         got = sorted((t.symbol.name, t.value) for t in toks)
-        key = (case["grammar"], case["mode"], case["ignore_case"], w, pos, state.state_id)
+        if case.get("prefix_mode"):
+            want = [x for x in want if x[0] != "STOP"]
+            got = [x for x in got if x[0] != "STOP"]
+            if STOP in state.actions:
+                ctx.count("events.stop_offered_next_to_tokens")
+        key = (case["grammar"], case["mode"], case["ignore_case"], case.get("prefix_mode", False), w, pos, state.state_id)
         ctx.case(key, nmatch >= 2, sample={"grammar": case["grammar"], "mode": case["mode"], "input": w, "position": pos, "expected": expected, "returned": got, "rule": reason})
         if nmatch >= 2:
             ctx.count("events.multi_match")
@@ -349,6 +365,8 @@ def check_input(ctx, mon, parser, case, tdefs, custom, w):
                 ctx.violation("inadmissible-token", dict(case, position=pos, state=state.state_id), "returned %s, admissible %s" % (got, adm))
                 return
             outs = admissible_outcomes(expected, tdefs, custom, w, pos, ld, case["ignore_case"], STOP in state.actions)
+            if outs is not None and case.get("prefix_mode"):
+                outs = set(tuple(x for x in o if x[0] != "STOP") for o in outs)
             if outs is not None:
                 ctx.count("events.explicit_mark_judged_by_order_model")
                 if tuple(got) not in outs:
@@ -382,7 +400,7 @@ def replay(case, ctx):
     mon = LRMonitor(record_events=True)
     mon.install()
     try:
-        pg, parser = build(case["grammar"], case["mode"], tdefs, custom, case["ignore_case"], case["passthrough"])
+        pg, parser = build(case["grammar"], case["mode"], tdefs, custom, case["ignore_case"], case["passthrough"], case.get("prefix_mode", False))
         check_input(ctx, mon, parser, case, tdefs, custom, case["input"])
     finally:
         mon.uninstall()
